@@ -7,6 +7,7 @@ import AnySyncModel.Generated.AuthShape
   tree <raw>                        → ok | err:<enum>
   add <raw> <raw> …                 → <status> add=<ids in attach order> h=… a=… s=… sh=…   (sorted sets)
   reopen                            → ok | err
+  validate heads=<a.b|-> <root raw> <raw> …   → ok a=… | err:<enum>      (ValidateRawTreeDefault)
   raw = id=<n>,cid=<n>,b=<n>,dec=0|1[,p=<n>,sig=S.<k>.<p>|G.<n>|N,der=0|1,idt=<acc>,acl=<rec>,prev=<a.b|->,snap=<n>,iss=0|1]
 `cid` is the real content id of the bytes `b` (computed by the real hash in the harness): the
 driver instantiates `H` with the table of all (b, cid) pairs it has been told.
@@ -114,6 +115,17 @@ def step (st : St) (line : String) : St × String :=
         | .ok => "ok" | .err e => showErr e | .rebuild => "rebuild"
       ({ st with cids := cids, tree := some t' }, s!"{status} add={showIds added} {post t'}")
     | _, _ => (st, "bad-op")
+  | "validate" :: hs :: r :: rs =>
+    match (if hs.startsWith "heads=" then parseIds (hs.drop 6).toString else none), parseRaw r, rs.mapM parseRaw with
+    | some heads, some (root, rcid), some raws =>
+      let cids := (root.body.bytes, rcid) :: raws.map (fun x => (x.1.body.bytes, x.2)) ++ st.cids
+      match validateRawTree (hOf cids) cw keep st.log root (raws.map (·.1)) heads with
+      | .ok t => ({ st with cids := cids, tree := some t }, s!"ok a={showIds (sortNats (t.attached.map (·.id)))}")
+      | .error (.err e) => ({ st with cids := cids }, s!"err:{showErr e}")
+      | .error .headsMismatch => ({ st with cids := cids }, "err:invalid")
+      | .error .derivedEmpty => ({ st with cids := cids }, "err:derived-empty")
+      | .error .rebuild => ({ st with cids := cids }, "rebuild")
+    | _, _, _ => (st, "bad-op")
   | ["reopen"] =>
     match st.tree with
     | some t => (st, if reopen cw keep st.log t then "ok" else "err")
